@@ -1370,10 +1370,14 @@ func famAlloc(o *Out, r R, tier string) {
 	}
 	// (a) large allow-lists: every element of a long list is looked up at a high rank (a per-element cost that only
 	//     shows beyond a threshold -- e.g. boxing an index >= 256 into an interface -- is a per-element allocation)
-	for _, nNames := range []int{300, 2000} {
+	for _, nNames := range []int{300, 2000, 41} {
 		var names []string
 		for k := 0; k < nNames; k++ {
-			names = append(names, "x-h"+strconv.Itoa(100000 + k)[1:])
+			if nNames == 41 { // long names (35 bytes): costs that appear beyond a small-buffer threshold
+				names = append(names, "x-long-header-name-for-allocs-"+strconv.Itoa(100000 + k)[1:])
+			} else {
+				names = append(names, "x-h"+strconv.Itoa(100000 + k)[1:])
+			}
 		}
 		m, err := cors.NewMiddleware(cors.Config{Origins: []string{"https://example.com"}, RequestHeaders: names, Methods: []string{"PUT"}})
 		if err != nil {
@@ -1381,7 +1385,7 @@ func famAlloc(o *Out, r R, tier string) {
 			continue
 		}
 		base := -1.0
-		for _, take := range []int{3, 100, nNames} {
+		for _, take := range []int{3, min(100, nNames), nNames} {
 			for _, from := range []string{"first", "last"} {
 				sub := names[:take]
 				if from == "last" {
